@@ -1,7 +1,7 @@
 SPECIFICATION Spec
 CONSTANTS
     Mode = "tree"
-    Depth = 5
+    Depth = 6
     Parts = {"fetch"}
     MetaFrom = "batch"
     SizeClasses = {"at"}
